@@ -59,6 +59,7 @@ func sweepReplay(lg *sim.Log, path string, max int, seed int64) (int, error) {
 			break
 		}
 		n++
+		v1 := n%2 == 0 // every second behaviour is replayed on the first-generation sweep (x/liquidation's begin blocker as the block action)
 		users := []string{}
 		for k := 1; k <= d.N0+4; k++ {
 			users = append(users, fmt.Sprintf("u%d", k))
@@ -76,7 +77,7 @@ func sweepReplay(lg *sim.Log, path string, max int, seed int64) (int, error) {
 		p1 := w.Prods[0].ID
 		step := func(a Act) Res {
 			rs := w.Do(a)
-			par = lg.Add(par, run, a.A, a.Args(), rs, map[string]interface{}{"s": w.Project(), "root": root})
+			par, _ = w.Record(lg, par, run, root, a, rs)
 			return rs
 		}
 		create := func(id uint64) {
@@ -94,7 +95,11 @@ func sweepReplay(lg *sim.Log, path string, max int, seed int64) (int, error) {
 			case "Drop":
 				step(Act{A: "Price", D: "ucm", Y: 1, On: true})
 			case "Block":
-				step(Act{A: "Block", Y: 5})
+				if v1 {
+					step(Act{A: "V1Sweep"})
+				} else {
+					step(Act{A: "Block", Y: 5})
+				}
 			case "Create":
 				create(h.ID)
 			case "Close":
